@@ -116,15 +116,34 @@ class OneShot:
         return self.it
 
 
-def as_arg(xs, flavour):
-    flavour = flavour % 4
+N_FLAVOURS = 6
+
+
+def ctor_flavour(fl):
+    """fl: bits 0-1 and the container bits select one of the six argument flavours for the constructor"""
+    return (fl % 4) if (fl // 4) % 2 else (fl % 4 + 2) % N_FLAVOURS
+
+
+def as_arg(xs, flavour, kind="Entity"):
+    """the same items as a list / generator / one-shot iterable / tuple / a ConstrainedList of the SDK itself /
+    the live list attribute of a sibling object"""
+    from basyx.aas import model
+    flavour = flavour % N_FLAVOURS
     if flavour == 0:
         return list(xs)
     if flavour == 1:
         return (x for x in list(xs))
     if flavour == 2:
         return OneShot(xs)
-    return tuple(xs)
+    if flavour == 3:
+        return tuple(xs)
+    if flavour == 4:
+        return model.ConstrainedList(list(xs))
+    if is_sem(kind):
+        sib = model.Qualifier("sibling", model.datatypes.Int, semantic_id=pool("Qualifier")[0],
+                              supplemental_semantic_id=list(xs))
+        return sib.supplemental_semantic_id
+    return model.AssetInformation(global_asset_id="urn:sibling", specific_asset_id=list(xs)).specific_asset_id
 
 
 # ---------------------------------------------------------------- generation
@@ -139,7 +158,7 @@ def gen_g(rng, allow_bad=True):
 
 
 def gen_xs(rng, maxn=3):
-    n = rng.choice([0, 0, 1, 1, 2, maxn])
+    n = rng.choice([0, 0, 1, 1, 2, maxn, 4])
     return [rng.randrange(POOL_N) for _ in range(n)]
 
 
@@ -153,9 +172,9 @@ def gen_bound(rng):
 
 def gen_op(rng, entity):
     k = rng.choice(["append", "insert", "extend", "iadd", "pop", "remove", "clear", "setitem", "delitem", "setslice",
-                    "delslice", "setlist", "setgaid", "settype" if entity else "setgaid", "extendbad", "setslicebad",
+                    "delslice", "setlist", "delxslice", "delxslice", "setgaid", "settype" if entity else "setgaid", "extendbad", "setslicebad",
                     "setlist", "setgaid", "clear", "pop"])
-    fl = rng.randrange(4)
+    fl = rng.randrange(N_FLAVOURS)
     if k == "append":
         return (k, rng.randrange(POOL_N))
     if k == "insert":
@@ -176,6 +195,11 @@ def gen_op(rng, entity):
         return (k, gen_bound(rng), gen_bound(rng), gen_xs(rng), fl)
     if k in ("delslice", "setslicebad"):
         return (k, gen_bound(rng), gen_bound(rng))
+    if k == "delxslice":
+        b1, b2 = gen_bound(rng), gen_bound(rng)
+        if rng.random() < 0.4:
+            b1 = b2 = None
+        return (k, b1, b2, rng.choice([2, -1, -2, 3, -3, -1, 0]))
     if k == "settype":
         return (k, rng.random() < 0.5)
     return ("setgaid", gen_g(rng))
@@ -280,14 +304,14 @@ def apply_op(obj, op, P, kind="Entity", alias=None):
     elif k == "insert":
         L.insert(op[1], P[op[2]])
     elif k == "extend":
-        L.extend(as_arg([P[i] for i in op[1]], op[2]))
+        L.extend(as_arg([P[i] for i in op[1]], op[2], kind))
     elif k == "extendbad":
         L.extend(5)
     elif k == "iadd":
         if is_sem(kind):
-            obj.supplemental_semantic_id += as_arg([P[i] for i in op[1]], op[2])
+            obj.supplemental_semantic_id += as_arg([P[i] for i in op[1]], op[2], kind)
         else:
-            obj.specific_asset_id += as_arg([P[i] for i in op[1]], op[2])
+            obj.specific_asset_id += as_arg([P[i] for i in op[1]], op[2], kind)
     elif k == "pop":
         return L.pop() if op[1] is None else L.pop(op[1])
     elif k == "remove":
@@ -299,13 +323,13 @@ def apply_op(obj, op, P, kind="Entity", alias=None):
     elif k == "delitem":
         del L[op[1]]
     elif k == "setslice":
-        L[op[1]:op[2]] = as_arg([P[i] for i in op[3]], op[4])
+        L[op[1]:op[2]] = as_arg([P[i] for i in op[3]], op[4], kind)
     elif k == "setslicebad":
         L[op[1]:op[2]] = 5
     elif k == "delslice":
         del L[op[1]:op[2]]
     elif k == "setlist":
-        setattr(obj, la, as_arg([P[i] for i in op[1]], op[2]))
+        setattr(obj, la, as_arg([P[i] for i in op[1]], op[2], kind))
     elif k == "settype":
         obj.entity_type = model.EntityType.SELF_MANAGED_ENTITY if op[1] else model.EntityType.CO_MANAGED_ENTITY
     elif k == "setgaid":
@@ -314,7 +338,7 @@ def apply_op(obj, op, P, kind="Entity", alias=None):
     elif k == "reverse":
         L.reverse()
     elif k == "setxslice":
-        L[op[1]:op[2]:op[3]] = as_arg([P[i] for i in op[4]], op[5])
+        L[op[1]:op[2]:op[3]] = as_arg([P[i] for i in op[4]], op[5], kind)
     elif k == "delxslice":
         del L[op[1]:op[2]:op[3]]
     else:
@@ -331,7 +355,7 @@ def documented(kind, op, exc):
     if type(exc) is IndexError:
         return k in ("pop", "setitem", "delitem")
     if type(exc) is ValueError:
-        return k in ("remove", "setxslice") or (k == "setgaid" and op[1][0] == "bad")
+        return k in ("remove", "setxslice") or (k == "setgaid" and op[1][0] == "bad") or (k == "delxslice" and op[3] == 0)
     if type(exc) is TypeError:
         return k in ("extendbad", "setslicebad")
     return False
@@ -345,7 +369,7 @@ def run_sdk(case, with_trace=True):
     P = pool(entity)
     fail = None
     try:
-        obj = construct(entity, t, gval(g, entity), as_arg([P[i] for i in xs], fl))
+        obj = construct(entity, t, gval(g, entity), as_arg([P[i] for i in xs], ctor_flavour(fl), entity))
     except Exception as e:  # noqa
         code = enc_exc(e)
         ok_doc = (code == 1000 + cnum(entity)) or (code == 1 and g[0] == "bad")
@@ -434,6 +458,8 @@ def coq_op(op):
         return f"SetSliceBad {coq_oz(op[1])} {coq_oz(op[2])}"
     if k == "delslice":
         return f"DelSlice {coq_oz(op[1])} {coq_oz(op[2])}"
+    if k == "delxslice":
+        return f"DelXSlice {coq_oz(op[1])} {coq_oz(op[2])} {coq_z(op[3])}"
     if k == "setlist":
         return f"SetList {coq_nl(op[1])}"
     if k in ("settype", "contain"):
@@ -475,7 +501,7 @@ def signature(case, k, msg):
     if k >= 0 and op in ("extend", "iadd", "setlist", "setslice", "setxslice"):
         flav = ":iterator" if case[5][k][-1] in (1, 2) else ":list"
     if k < 0:
-        flav = ":iterator" if case[4] % 4 in (1, 2) else ":list"
+        flav = ":iterator" if ctor_flavour(case[4]) in (1, 2) else ":list"
     m = re.sub(r"'[^']*'|\d+", "_", msg.split(":")[0] if "AASd" not in msg else msg)[:50]
     cont = ""
     if entity in ATTACHABLE:
@@ -519,6 +545,32 @@ def exhaustive_cases(maxlen):
     return cases
 
 
+XB = [None, 0, 1, -1, 2, -3, 5]
+XSTEPS = [2, -1, -2, 3, -3]
+
+
+def xslice_cases():
+    """every extended slice (bounds from XB, steps from XSTEPS) as a deletion (model + oracle) and as an assignment
+    (oracle only) on lists of length 0..4, for the owners whose delete / set hooks depend on the length"""
+    dels, sets = [], []
+    states = [("Entity", True, ("none",)), ("Entity", True, ("ok", 0)), ("AssetInformation", True, ("none",)),
+              ("AssetInformation", True, ("ok", 0)), ("Qualifier", False, ("ok", 0))]
+    for kind, t, g in states:
+        for n in range(5):
+            if n == 0 and g == ("none",):
+                continue
+            xs = [i % POOL_N for i in range(n)]
+            for a in XB:
+                for b in XB:
+                    for st in XSTEPS:
+                        fl = (len(dels) % N_FLAVOURS)
+                        dels.append((kind, t, g, xs, fl % 4, [("delxslice", a, b, st)]))
+                        k = len(range(n)[a:b:st])
+                        for m in {k, 0, k + 1}:
+                            sets.append((kind, t, g, xs, fl % 4, [("setxslice", a, b, st, [j % POOL_N for j in range(m)], fl)]))
+    return dels, sets
+
+
 def frag_lists(chk, can_eval=True):
     rng = chk.rng
     cases = []
@@ -527,6 +579,13 @@ def frag_lists(chk, can_eval=True):
     cases += ex
     chk.cov["list_exhaustive"] = (f"every sequence of length <= {exh} over 14 (Entity) / 12 (AssetInformation, Qualifier, "
                                   f"Property) operations from each of 30 constructor argument combinations: {len(ex)} sequences")
+    xd, xsets = xslice_cases()
+    if chk.tier == "quick":
+        xsets = xsets[chk.seed % 2::2]
+    cases += xd
+    chk.cov["list_extended_slices"] = (f"every slice [a:b:step] with a, b in {XB} and step in {XSTEPS} on lists of length 0..4 of "
+                                       f"Entity / AssetInformation (globalAssetId present and absent) and Qualifier: {len(xd)} deletions "
+                                       f"(model + oracle), {len(xsets)} assignments with matching and non-matching sizes (oracle)")
     for _ in range(nrand):
         cases.append(gen_case(rng, maxlen))
     terms = []
@@ -548,17 +607,26 @@ def frag_lists(chk, can_eval=True):
         terms.append(coq_case(case, trace))
         if len(chk.samples) < 3 and len(case[5]) >= 4 and len(trace) > 1:
             chk.samples.append({"fragment": "lists", "case": repr(case), "sdk_trace_last": trace[-1]})
-    # SDK-only stream: extended slices and reverse(), judged by the oracle alone
+    # SDK-only stream: extended-slice assignment and reverse(), judged by the oracle alone
     nx = 600 if chk.tier == "quick" else 6000
-    for _ in range(nx):
-        case = gen_case(rng, 6)
+    for ix in range(nx + len(xsets)):
+        case = gen_case(rng, 6) if ix < nx else xsets[ix - nx]
         ops = list(case[5])
+        if ix >= nx:
+            _, fail = run_sdk(case)
+            chk.seen(("listx",) + tuple(map(repr, case)), nontrivial=True)
+            chk.count("list:sdk-only-sequences")
+            if fail:
+                k2, msg2 = fail
+                chk.fail(signature(case, k2, msg2), msg2,
+                         {"kind": "list", "case": [case[0], case[1], list(case[2]), case[3], case[4], [list(o) for o in case[5]]]})
+            continue
         for j in range(len(ops)):
             r = rng.random()
             if r < 0.2:
                 ops[j] = ("reverse",)
             elif r < 0.4:
-                ops[j] = ("setxslice", gen_bound(rng), gen_bound(rng), rng.choice([2, -1, -2, 3]), gen_xs(rng), rng.randrange(4))
+                ops[j] = ("setxslice", gen_bound(rng), gen_bound(rng), rng.choice([2, -1, -2, 3, 0]), gen_xs(rng), rng.randrange(N_FLAVOURS))
             elif r < 0.55:
                 ops[j] = ("delxslice", gen_bound(rng), gen_bound(rng), rng.choice([2, -1, -2, 3]))
         case = case[:5] + (ops,)
@@ -577,8 +645,9 @@ def frag_lists(chk, can_eval=True):
     P = pool("Qualifier")
     for g in (None, P[0]):
         for n in (0, 1, 2):
-            for fl in range(4):
-                e = call(lambda: model.SpecificAssetId("n", "v", semantic_id=g, supplemental_semantic_id=as_arg(P[1:1 + n], fl)))
+            for fl in range(N_FLAVOURS):
+                e = call(lambda: model.SpecificAssetId("n", "v", semantic_id=g,
+                                                       supplemental_semantic_id=as_arg(P[1:1 + n], fl, "Qualifier")))
                 bad_args = g is None and n > 0
                 chk.seen(("sid-ctor", g is None, n, fl), nontrivial=True)
                 if (e is None) == bad_args or (e is not None and not (isinstance(e, model.AASConstraintViolation)
